@@ -838,7 +838,12 @@ def get_unique_label(label: str, labels: dict) -> tp.Tuple[str, dict]:
 
 def replace_in_expr(expr: Expr, replacements: dict):
     expr = expr.subs(replacements, simultaneous=True)
+    new_symbols = set(replacements.values())
     for arg_old in replacements:
+        # a symbol that is itself the new name of another argument (x -> x_v1 while x_v1 -> x_v1_v1) has just
+        # been introduced by the simultaneous substitution and must not be replaced a second time
+        if arg_old in new_symbols:
+            continue
         if expr.count(arg_old):
             expr = expr.replace(arg_old, replacements[arg_old])
     return expr
